@@ -313,6 +313,10 @@ func (s *sessions) add(session *Session) {
 	closed := s.data == nil
 	if !closed {
 		s.data[session] = struct{}{}
+		if session.IsClosed() {
+			// the session shut down before it was registered: its removeShutdownSession has already run.
+			delete(s.data, session)
+		}
 	}
 	s.sessionMu.Unlock()
 	if closed {
